@@ -70,6 +70,8 @@ def gen_scripts(ctx, quick, after=False, outs=("ok", "ok", "ok", "err"), per=Non
                 it = {"id": "i%d" % (i + 1), "kind": ck, "out": out, "done": rnd.choice([1, 2, 3])}
                 if ck == "service" and out != "ok" and not after and rnd.random() < 0.6:
                     it["bo"] = 6000    # still in its restart back-off when the module is stopped
+                if ck in ("worker", "startworker") and rnd.random() < 0.3:
+                    it["pre"] = True     # started before the module system: its context must be cancelled by the stop all the same
                 items.append(it)
             pol = ["stopper" if a == 0 else "fn" if a == -1 else "i%d" % a for a in g["policy"]]
             scripts.append({"items": items, "hasStopFn": g["hasStopFn"], "dep": True,
@@ -77,6 +79,25 @@ def gen_scripts(ctx, quick, after=False, outs=("ok", "ok", "ok", "err"), per=Non
                             "stopErr": bool(g["hasStopFn"]) and rnd.random() < 0.25,
                             "mode": rnd.choice(["shutdown", "manage"]), "probes": True, "waitAgain": after,
                             "policy": pol})
+    # directed: a task that was taken from the queue and waits for its time slot (the microtask limit is reached)
+    # when the stop begins - it never runs, and nothing of it may hold up the stop
+    if not after:
+        for fn in (True, False):
+            for mode in ("shutdown", "manage"):
+                items = [{"id": "i1", "kind": "micro_med", "out": "ok", "done": 1}, {"id": "i2", "kind": "micro_med", "out": "ok", "done": 1},
+                         {"id": "i3", "kind": "task", "out": "ok", "done": 1}]
+                scripts.append({"items": items, "hasStopFn": fn, "dep": True, "mode": mode, "probes": True, "waitAgain": False,
+                                "microLimit": 2, "directed": "timeslot",
+                                "policy": ["i1", "i2", "i3", "stopper", "stopper", "stopper", "stopper", "fn", "i1", "i2",
+                                           "i1", "i2", "stopper", "fn", "stopper", "i1", "i2", "stopper"]})
+        # directed: work that was started before the module system was (it lives on across the start of its module) and
+        # returns after the stop routine has begun
+        for kind in ("worker", "startworker"):
+            for mode in ("shutdown", "manage"):
+                scripts.append({"items": [{"id": "i1", "kind": kind, "out": "ok", "done": 1, "pre": True},
+                                          {"id": "i2", "kind": "worker", "out": "ok", "done": 1}],
+                                "hasStopFn": True, "dep": True, "mode": mode, "probes": True, "waitAgain": False, "directed": "prestart",
+                                "policy": ["i2", "stopper", "stopper", "stopper", "stopper", "fn", "i1", "i2", "fn", "stopper", "stopper"]})
     return scripts
 
 
